@@ -539,7 +539,7 @@ pub fn run(tier: &str) -> i32 {
             limits: vec![1, 2],
             cs: vec![None, Some(1), Some(2)],
         };
-        let e = explore(&m, &Limits::new(2, if quick { 55 } else { 6000 }));
+        let e = explore(&m, &Limits::new(2, if quick { 300 } else { 6000 }));
         rep.absorb(
             &format!("PAGER theta={} base n={} special<={} env events<={}", theta, n, sp, max_env),
             e,
